@@ -22,6 +22,8 @@ def main(pid, tier, seed, replay):
     if cfg is None:
         print("unknown property", pid)
         return 2
+    if replay:
+        return replay_case(pid, cfg, replay)
     problems = []      # (kind, text, replay_payload) kind in specfail|tie|proof
     notes = []
     cov = {}
@@ -142,6 +144,32 @@ def main(pid, tier, seed, replay):
         pid, "OK" if violations == 0 else "FAIL", tier, seed, discharged, obligations,
         cov.get("evaluations", "-"), wall))
     return 0 if violations == 0 else 1
+
+
+def replay_case(pid, cfg, path):
+    """Re-judge the recorded observation of a replay file with the extracted Coq check function
+    (and show what the violation was). The replay file also carries seed and tier: running
+    `VERIF_SEED=<seed> ./check <id> --tier <tier>` regenerates the same inputs against the current tree."""
+    rp = json.load(open(path))
+    print("replay of %s: %s" % (pid, rp.get("what", "")[:300]))
+    case = rp.get("case")
+    if not case or not cfg.get("ocaml") or case.startswith(("VIOL ", "SHELLFAIL ")):
+        print(json.dumps({k: v for k, v in rp.items() if k != "log_tail"}, indent=1)[:3000])
+        print("to re-run against the current tree: VERIF_SEED=%s ./check %s --tier %s" % (rp.get("seed"), pid, rp.get("tier")))
+        return 1
+    ok, out = V.build_ocaml(cfg["ocaml"])
+    d = os.path.join(V.BUILD, "replay-%s-%d" % (pid, os.getpid()))
+    os.makedirs(d, exist_ok=True)
+    try:
+        open(os.path.join(d, "cases.txt"), "w").write(case + "\n")
+        rc, out, dt = V.run([os.path.join(V.VERIF, "ocaml", cfg["ocaml"], "drv"), os.path.join(d, "cases.txt")] + cfg.get("drv_args", []))
+        print(out.strip())
+        bad = any(l.startswith(("SPECFAIL", "MISMATCH")) for l in out.splitlines())
+        if bad:
+            print("VIOLATION property=%s replay=%s" % (pid, path))
+        return 1 if bad else 0
+    finally:
+        shutil.rmtree(d, ignore_errors=True)
 
 
 def run_tie(pid, cfg, tier, seed, replay, problems, notes):
